@@ -1124,6 +1124,42 @@ fn ep_c20(s: &mut S, r: &mut Rng, maxc: usize, maxr: usize) {
     }
 }
 
+/// Bounded-exhaustive C08: all 256 indexed colours x both grounds x every encoding, each followed by a
+/// printed cell and an erased cell whose pen is then read back through the public accessors.
+fn ep_c08x(s: &mut S, r: &mut Rng, shard: u64, shards: u64) {
+    let mut k = 0u64;
+    for ground in [38u32, 48] {
+        for idx in 0u32..256 {
+            k += 1;
+            if k % shards != shard {
+                continue;
+            }
+            s.episode("C08X");
+            let slot = s.new_vt(3, 2, 0);
+            let mut forms = vec![format!("\x1b[{};5;{}m", ground, idx), format!("\x1b[{}:5:{}m", ground, idx), format!("\u{9b}{};5;{}m", ground, idx)];
+            if idx < 8 {
+                forms.push(format!("\x1b[{}m", ground - 8 + idx));
+            } else if idx < 16 {
+                forms.push(format!("\x1b[{}m", ground + 52 + idx - 8));
+            }
+            // the same value as an RGB grey, in the three RGB spellings
+            forms.push(format!("\x1b[{};2;{};{};{}m", ground, idx, 255 - idx, idx / 2));
+            forms.push(format!("\x1b[{}:2:{}:{}:{}m", ground, idx, 255 - idx, idx / 2));
+            forms.push(format!("\x1b[{}:2::{}:{}:{}m", ground, idx, 255 - idx, idx / 2));
+            for f in forms {
+                // an unrelated attribute before and after must survive
+                let attr = *r.pick(&["1", "3", "4", "5", "7", "9", "2"]);
+                s.feed_str(slot, &format!("\x1b[{}m", attr), true);
+                s.feed_str(slot, &f, true);
+                s.feed_str(slot, "x", true);
+                s.feed_str(slot, "\x1b[K", true);
+                s.feed_str(slot, if ground == 38 { "\x1b[39m" } else { "\x1b[49m" }, true);
+                s.feed_str(slot, "\x1b[m\r", true);
+            }
+        }
+    }
+}
+
 /// Bounded-exhaustive: every CSI final 0x40..0x7e x {no prefix, ?, <, =, >} x {no intermediate, SP, !, $}
 /// x parameter shapes, each as ONE feed_str call on a terminal in a non-default state.  Whether a
 /// sequence is inert is decided by the specification (TLC), not here.
@@ -1182,6 +1218,12 @@ pub fn run(args: &Args) -> i32 {
     let mut r = Rng::new(seed.wrapping_mul(0x2545F4914F6CDD1D) ^ drv.bytes().fold(0u64, |a, b| a.wrapping_mul(131).wrapping_add(b as u64)));
     if drv == "C03P" {
         return crate::sweep::parser_streams(args, &mut r);
+    }
+    if drv == "C08X" {
+        ep_c08x(&mut s, &mut r, args.num("shard", 0), args.num("shards", 1));
+        s.out.flush().unwrap();
+        println!("{{\"driver\":\"C08X\",\"seed\":{},\"episodes\":{},\"events\":{},\"panics\":{},\"chars\":{},\"distinct_nontrivial\":{}}}", seed, s.episodes, s.events, s.panics, s.chars_fed, s.distinct.len());
+        return 0;
     }
     if drv == "C20X" {
         // --episodes doubles as "shard count", --seed low digits as the shard index
